@@ -764,7 +764,7 @@ def c14(chk):
         sc.P = [[x * 2.0 ** k for x in r] for r in c.P]; sc.bc = [[x * 2.0 ** k for x in b] for b in c.bc]
         # small and large factors: the relation is exact for every power of two, so it also reaches durations of hours and of
         # fractions of a millisecond (absolute thresholds inside the solver would show here)
-        q = rng.choice([-2, -1, 1, 2, 11, 13, -8, -10])
+        q = rng.choice([-2, -1, 1, 2, 11, 13, -8, -10, 17, 20])
         lam = 2.0 ** q
         tm = copy.deepcopy(c)
         tm.h = [x * lam for x in c.h]
